@@ -21,7 +21,7 @@ def jobs(tier: str):
             yield compose.corpus_job(name, prog, inp, out, universe, consts, cfgs, "C06/corpus")
 
     def mk(j, c0):
-        fam = j["family"].split("/")[0]
+        fam = j["family"].split("/")[0].split("~")[0]
         inp = c0["inp"]
         if inp != "auto":
             upreds = sorted({(f.split("(")[0], f.count(",") + 1 if "(" in f else 0) for f in j["universe"]})
@@ -33,7 +33,7 @@ def jobs(tier: str):
         return cfgs
 
     fams = ["C08", "C10", "C11", "C12", "C13", "C14", "C16"]
-    yield from compose.remap(compose.family_jobs(fams, tier), "C06", mk, keep=slice_keep(tier))
+    yield from compose.remap(compose.family_jobs(fams, tier, variants=20), "C06", mk, keep=slice_keep(tier))
 
 
 def main(tier: str, seed: int) -> int:
